@@ -73,7 +73,18 @@ Ops(m) == Mod(m).ops
 Op == Ops(Top.mod)[Top.pc]
 InBody == phase = "process" /\ stack # <<>> /\ Top.pc <= Len(Ops(Top.mod)) /\ ~st.crash
 Advance == stack' = [stack EXCEPT ![Len(stack)].pc = @ + 1]
-BO == [c \in DOMAIN classes |-> classes[c].inito]        \* bases known so far (Class.baseobjects before post)
+RECURSIVE Lin(_, _, _)
+Lin(c, fb, fuel) ==
+  IF fuel = 0 THEN <<0>> ELSE
+  LET bs == SelectSeq(IF c \in DOMAIN fb THEN fb[c] ELSE <<>>, LAMBDA x : x # NoObj)
+  IN <<c>> \o Merge([i \in 1..Len(bs) |-> Lin(bs[i], fb, fuel - 1)] \o <<bs>>, 12)
+
+InitBases == [c \in DOMAIN classes |-> classes[c].inito]   \* bases known so far (Class.baseobjects before post)
+\* what Class.mro() yields while modules are still being analysed: the C3 linearisation of the bases known so far,
+\* or the depth-first list(self.allbases(include_self=True)) when those cannot be linearised
+BO == [c \in DOMAIN classes |-> LET l == Lin(c, InitBases, 8) IN IF 0 \in SeqRange(l) THEN AllBases(c, InitBases, 6) ELSE l]
+\* ... and once post-processing has computed the linearisations
+MO == [c \in DOMAIN post |-> post[c].mro]
 ModIdx(o) == st.objs[o].site.m                           \* project module of a module object
 IsMod(o) == o # NoObj /\ IsModCls(Cls(st, o))
 
@@ -203,23 +214,6 @@ FinalBases(c) == [b \in 1..Len(classes[c].raw) |->
                              \* the class may have been moved since: retry with the name as expanded in its original scope
                              r2 == IF r # NoObj /\ Cls(st, r) = "Class" THEN r ELSE FindObject(st, classes[c].initb[b], BO)
                          IN IF r2 # NoObj /\ Cls(st, r2) = "Class" THEN r2 ELSE NoObj]
-\* C3 merge (mro.py) over resolved bases; unresolved bases contribute nothing here (they are strings in the code)
-RECURSIVE Merge(_, _)
-Merge(seqs, fuel) ==
-  LET ne == SelectSeq(seqs, LAMBDA s : s # <<>>)
-  IN IF ne = <<>> THEN <<>>
-     ELSE IF fuel = 0 THEN <<0>>
-     ELSE LET good == {i \in 1..Len(ne) : \A j \in 1..Len(ne) : ne[i][1] \notin SeqRange(Tail(ne[j]))}
-          IN IF good = {} THEN <<0>>                                    \* inconsistent hierarchy
-             ELSE LET h == ne[CHOOSE i \in good : \A j \in good : i <= j][1]
-                      rest == [i \in 1..Len(ne) |-> SelectSeq(ne[i], LAMBDA x : x # h)]
-                  IN <<h>> \o Merge(rest, fuel - 1)
-RECURSIVE Lin(_, _, _)
-Lin(c, fb, fuel) ==
-  IF fuel = 0 THEN <<0>> ELSE
-  LET bs == SelectSeq(IF c \in DOMAIN fb THEN fb[c] ELSE <<>>, LAMBDA x : x # NoObj)
-  IN <<c>> \o Merge([i \in 1..Len(bs) |-> Lin(bs[i], fb, fuel - 1)] \o <<bs>>, 12)
-
 PostProcess == /\ phase = "process" /\ stack = <<>> /\ unproc = <<>> /\ ~st.crash
                /\ LET fb == [c \in DOMAIN classes |-> FinalBases(c)] IN
                     \* Class._init_mro: an inconsistent hierarchy (ValueError) falls back on allbases(include_self)
@@ -266,7 +260,7 @@ ObjAt(i, pc) == LET c == SiteObjs(i, pc) IN IF c = {} THEN NoObj ELSE CHOOSE o \
 SiteOfObj(o) == IF o = NoObj THEN <<>> ELSE <<st.objs[o].site.m, st.objs[o].site.pc>>
 Row(key, parts, v) == [scope |-> key, name |-> parts, py |-> <<v.i, v.pc>>,
                        res |-> IF ObjAt(key[1], key[2]) = NoObj THEN <<>>
-                               ELSE SiteOfObj(ResolveName(st, ObjAt(key[1], key[2]), parts, BO))]
+                               ELSE SiteOfObj(ResolveName(st, ObjAt(key[1], key[2]), parts, MO))]
 NameRows == UNION {
    {Row(key, <<n>>, PB.ns[key][n]) : n \in DOMAIN PB.ns[key]}
    \cup UNION {{Row(key, <<n, a>>, PB.ns[ModKey(PB.ns[key][n].i)][a]) : a \in DOMAIN NsOf(PB, ModKey(PB.ns[key][n].i))}
@@ -275,6 +269,11 @@ NameRows == UNION {
                          : b \in DOMAIN NsOf(PB, ModKey(PB.ns[ModKey(PB.ns[key][n].i)][a].i))}
                       : a \in {y \in DOMAIN NsOf(PB, ModKey(PB.ns[key][n].i)) : PB.ns[ModKey(PB.ns[key][n].i)][y].t = "mod"}}
                : n \in {x \in DOMAIN PB.ns[key] : PB.ns[key][x].t = "mod"}}
+   \* names reached through a class value: C.member for every member bound in C or inherited along Python's MRO
+   \cup UNION {UNION {{Row(key, <<n, a>>, Attr(PB, PB.ns[key][n], a, 8))
+                         : a \in DOMAIN NsOf(PB, <<PyMro(PB, PB.ns[key][n], 8)[k].i, PyMro(PB, PB.ns[key][n], 8)[k].pc>>)}
+                      : k \in {j \in 1..Len(PyMro(PB, PB.ns[key][n], 8)) : PyMro(PB, PB.ns[key][n], 8)[j].t = "obj"}}
+               : n \in {x \in DOMAIN PB.ns[key] : IsClassVal(PB, PB.ns[key][x])}}
    : key \in DOMAIN PB.ns}
 \* never a different object
 ResolvesRightOrNot == phase = "done" => \A r \in NameRows : r.res = <<>> \/ r.res = r.py
